@@ -20,9 +20,13 @@
      op 7  SubgraphKeep:        18 7 <graph> <nodes> <edges flat: node edge ...> status n' { old <Out(i)> <EdgeMap(i,.) flat> }^n' pure
      op 8  SubgraphRemove:      18 8 <graph> <nodes> <edges flat> status n' { old <Out(i)> <EdgeMap(i,.) flat> }^n' pure
              old = NodeMap(identity)(i); EdgeMap with the pairing map, flattened node edge node edge ...
+     op 9  DotString:           18 9 <bytes> status <result bytes>
+     op 10 Dot.Sprint:          18 10 <graph> <name> haslabel n {<label(i)>}^n hasnattrs n {<attrs(i)>}^n haseattrs n { deg {<attrs(i,j)>}^deg }^n status <output bytes> pure
+             <attrs> = count { <name bytes> kind payload }*; kind 0 string <bytes>, 1 int z, 2 DotLiteral <bytes>,
+             3 a bool (formatAttrs panics), 4 uint z.  The tables are empty when the has-flag is 0 (nil func).
    Verdict tag = 0 for a trivial case, else 256*op + branch bits (listed per op). *)
 From Coq Require Import FMapPositive.
-From MM Require Import Base.Num Base.GCGraph Base.GCReach Model.Marks Spec.Dfs Model.Order Spec.Scc Model.Graph Model.Subgraph.
+From MM Require Import Base.Num Base.GCGraph Base.GCReach Model.Marks Spec.Dfs Model.Order Spec.Scc Model.Graph Model.Subgraph Model.Dot.
 Open Scope Z_scope.
 
 Definition pfail {A} : parser A := fun _ => None.
@@ -387,12 +391,77 @@ Definition check_remove : parser (list Z) :=
             sg_verdict 8 bits expected status obs pure
         end).
 
+(* ------------------------------------------------------------------ op 9/10: Dot *)
+Definition obytes_eqb (expected : option bytes) (obs : list Z) : bool :=
+  match expected with Some b => list_Z_eqb (ZsN b) obs | None => false end.
+
+(* branch bits (DotString): 1 a newline escaped, 2 a special byte escaped, 4 plain bytes only, 8 empty,
+   16 bytes >= 128 *)
+Definition check_dotstring : parser (list Z) :=
+  do sz <- p_Zs; do status <- pZ; do obs <- p_Zs;
+  pend (let s := NsZ sz in
+        let bits := Z.lor (if existsb (N.eqb 10) s then 1 else 0)
+                   (Z.lor (if existsb dot_special s then 2 else 0)
+                   (Z.lor (if negb (existsb (fun c => (c =? 10)%N || dot_special c) s) && (0 <? length s)%nat then 4 else 0)
+                   (Z.lor (if (length s =? 0)%nat then 8 else 0)
+                          (if existsb (fun c => (128 <=? c)%N) s then 16 else 0)))) in
+        let w := first_false [ status =? 0; negb (existsb (fun x => x <? 0) obs);
+                               obytes_eqb (Some (dot_string s)) obs;
+                               (* the proved reader applied to the OBSERVED output restores the input *)
+                               match unescape (NsZ obs) with Some r => bytes_eqb r s | None => false end ] in
+        match w with
+        | None => verdict V_OK (mk_tag 9 bits) (-1) []
+        | Some k => verdict V_MISMATCH (mk_tag 9 (Z.lor bits 128)) k [9; k]
+        end).
+
+Definition p_attr : parser attr :=
+  do name <- p_Zs; do kind <- pZ;
+  if (kind =? 0) then (do b <- p_Zs; pret (NsZ name, AStr (NsZ b)))
+  else if (kind =? 2) then (do b <- p_Zs; pret (NsZ name, ALit (NsZ b)))
+  else if (kind =? 1) || (kind =? 4) then (do z <- pZ; pret (NsZ name, AInt z))
+  else if (kind =? 3) then pret (NsZ name, AOther)
+  else pfail.
+Definition p_attrs : parser (list attr) := plist_any p_attr.
+
+(* branch bits (Sprint): 1 Label given, 2 NodeAttrs given, 4 EdgeAttrs given, 8 a NodeAttrs label overrides
+   Label, 16 the call panics (attribute of unknown type), 32 the graph has edges, 64 no option at all *)
+Definition check_sprint : parser (list Z) :=
+  do g <- p_graph; do name <- p_Zs;
+  do haslabel <- pZ; do labels <- plist_any p_Zs;
+  do hasn <- pZ; do nattrs <- plist_any p_attrs;
+  do hase <- pZ; do eattrs <- plist_any (plist_any p_attrs);
+  do status <- pZ; do obs <- p_Zs; do pure <- pZ;
+  pend (if negb (g_wfb g) then verdict V_MALFORMED 0 (-1) [10]
+        else
+          let d := mk_dot_opts (NsZ name)
+                     (if haslabel =? 0 then None else Some (fun i => NsZ (nth (N.to_nat i) labels [])))
+                     (if hasn =? 0 then None else Some (fun i => nth (N.to_nat i) nattrs []))
+                     (if hase =? 0 then None else Some (fun i j => nth (N.to_nat j) (nth (N.to_nat i) eattrs []) [])) in
+          let expected := dot_sprint d (g_out g) (g_n g) in
+          let overrides := negb (hasn =? 0) && existsb (existsb (fun a => bytes_eqb (fst a) str_label)) nattrs in
+          let bits := Z.lor (if haslabel =? 0 then 0 else 1)
+                     (Z.lor (if hasn =? 0 then 0 else 2)
+                     (Z.lor (if hase =? 0 then 0 else 4)
+                     (Z.lor (if overrides then 8 else 0)
+                     (Z.lor (match expected with None => 16 | Some _ => 0 end)
+                     (Z.lor (if (0 <? length (concat g))%nat then 32 else 0)
+                            (if (haslabel =? 0) && (hasn =? 0) && (hase =? 0) then 64 else 0)))))) in
+          let w := match expected with
+                   | None => first_false [ status =? 2; pure =? 1 ]
+                   | Some b => first_false [ status =? 0; obytes_eqb expected obs; pure =? 1 ]
+                   end in
+          match w with
+          | None => verdict V_OK (mk_tag 10 bits) (-1) []
+          | Some k => verdict V_MISMATCH (mk_tag 10 (Z.lor bits 128)) k [10; k]
+          end).
+
 (* ------------------------------------------------------------------ dispatch *)
 Definition check_C18 (line : list Z) : list Z :=
   match line with
   | 18 :: op :: rest =>
       let p := if op =? 1 then check_marks else if op =? 2 then check_trav else if op =? 3 then check_scc else if op =? 4 then check_bigraph else if op =? 5 then check_equal
-               else if op =? 6 then check_simplify else if op =? 7 then check_keep else if op =? 8 then check_remove else pfail in
+               else if op =? 6 then check_simplify else if op =? 7 then check_keep else if op =? 8 then check_remove
+               else if op =? 9 then check_dotstring else if op =? 10 then check_sprint else pfail in
       match p rest with
       | Some (v, _) => v
       | None => verdict V_MALFORMED 0 (-1) [op]
